@@ -309,7 +309,12 @@ def kick_mask_plumbing(repo, run):
                 asg.update({a: True for a in nones})
                 if eval_bool(pc, asg):
                     reach_none = True
-            gives_back_none = reach_none and isinstance(ret.value, _ast.Name) and ret.value.id == par
+            v_ = ret.value
+            maybe_none = (isinstance(v_, _ast.Name) and v_.id == par) or (isinstance(v_, _ast.Constant) and v_.value is None) or v_ is None or (
+                isinstance(v_, _ast.Call) and dotted(v_.func) == "getattr" and len(v_.args) == 3 and isinstance(v_.args[2], _ast.Constant) and v_.args[2].value is None) or (
+                isinstance(v_, _ast.Call) and isinstance(v_.func, _ast.Attribute) and v_.func.attr == "get" and (len(v_.args) == 1 or (
+                    len(v_.args) == 2 and isinstance(v_.args[1], _ast.Constant) and v_.args[1].value is None)))
+            gives_back_none = reach_none and maybe_none
             run.judged(rid, "__get_integrator_mask: `%s` %s" % (src(ret), "reachable with no mask given" if reach_none else "only with a mask given"), ok=not gives_back_none)
             if gives_back_none:
                 run.report("C10.6", DSF, ret, "set_method called without a mask (e.g. `system.method = ...`) stores what this helper returns; on the path where the current integrator "
